@@ -80,7 +80,21 @@ fn gen_stmt(r: &mut Rng) -> J {
     let n = *r.pick(VARS);
     let m = *r.pick(VARS);
     let p = *r.pick(VARS);
-    let e = match r.below(20) {
+    let lit = |v: J| json!({"k":"lit","v":v});
+    let sa = json!({"t":"str","cs":[12]});
+    let e = match r.below(32) {
+        20 => asg(n, json!({"k":"rec","es":[{"m":"static","key":[12],"e":num(1)},{"m":"static","key":[13],"e":{"k":"list","xs":[num(1)]}}]})),
+        21 => asg(n, lit(match r.below(3) { 0 => sa.clone(), 1 => json!({"t":"bool","b":true}), _ => json!({"t":"null"}) })),
+        22 => asg(n, json!({"k":"rec","es":[{"m":"short","n":*r.pick(&["a", "b", "c"])},{"m":"static","key":[12],"e":num(2)}]})),
+        23 => asg(n, json!({"k":"rec","es":[{"m":"static","key":[14],"e":num(3)},{"m":"spread","e":id(m)},{"m":"static","key":[14],"e":num(4)}]})),
+        24 => asg(n, json!({"k":"rec","es":[{"m":"dyn","ke":id(m),"e":num(1)}]})),
+        25 => asg(n, json!({"k":"dot","e":id(m),"f":[12]})),
+        26 => json!({"k":"idx","e":id(m),"i":if r.chance(1, 2) { lit(sa.clone()) } else { num(0) }}),
+        27 => asg(n, json!({"k":"list","xs":[{"k":"spread","e":id(m)}, num(3)]})),
+        28 => call(id("max"), vec![json!({"k":"spread","e":id(m)}), num(1)]),
+        29 => asg(n, json!({"k":"bin","o":"add","l":id(m),"r":lit(json!({"t":"str","cs":[13]}))})),
+        30 => json!({"k":"un","o":if r.chance(1, 2) { "neg" } else { "not" },"e":id(m)}),
+        31 => asg(n, json!({"k":"bin","o":*r.pick(&["coalesce", "and", "nor"]),"l":id(m),"r":if r.chance(1, 2) { num(5) } else { lit(json!({"t":"bool","b":true})) }})),
         0 | 1 => asg(n, num(r.range(1, 4))),
         2 => asg(n, id(m)),
         3 => asg(n, add(asg(m, num(2)), num(1))),
